@@ -72,6 +72,8 @@ type Options struct {
 	CPULimit time.Duration // per request CPU budget (default 20 s)
 	ASMB     int           // RLIMIT_AS in MiB for the child (0 = 8192; <0 = none)
 	Env      []string      // extra environment
+	// RecycleEvery restarts the child after that many requests (default 40; <0 = never).
+	RecycleEvery int
 }
 
 // Client owns one worker process (restarted on demand).  Safe for use by one goroutine.
@@ -85,6 +87,7 @@ type Client struct {
 	out  *ring
 	done chan struct{}
 	seq  int64
+	served int
 	// Restarts counts how often the child had to be started.
 	Restarts int
 }
@@ -108,6 +111,9 @@ func New(opt Options) *Client {
 	}
 	if opt.ASMB == 0 {
 		opt.ASMB = 8192
+	}
+	if opt.RecycleEvery == 0 {
+		opt.RecycleEvery = 40
 	}
 	return &Client{opt: opt}
 }
@@ -211,7 +217,12 @@ type wireReply struct {
 func (c *Client) Do(op string, args interface{}) Outcome {
 	c.mu.Lock()
 	defer c.mu.Unlock()
+	// the address space of a worker grows with every wazero run; recycle it between requests
+	if c.cmd != nil && c.opt.RecycleEvery > 0 && c.served >= c.opt.RecycleEvery {
+		c.kill()
+	}
 	if c.cmd == nil {
+		c.served = 0
 		if err := c.start(); err != nil {
 			return Outcome{Kind: Timeout, Err: "cannot start worker: " + err.Error()}
 		}
@@ -274,6 +285,7 @@ func (c *Client) Do(op string, args interface{}) Outcome {
 			}
 			o := Outcome{Kind: wr.Outcome, Result: wr.Result, Err: wr.Err, Panic: wr.Panic, Stack: wr.Stack,
 				Output: c.out.String(), CPUms: used}
+			c.served++
 			if wr.Outcome == Panic {
 				c.kill() // global compiler state may be corrupt after a panic
 			}
